@@ -29,12 +29,15 @@ Recv(i) ==
         ELSE IF Len(LogExit) > 0 THEN [kind |-> "exit", k |-> i, code |-> LogExit[1].code, stdout |-> "", nul |-> Len(LogUl), banner |-> LogExit[1].banner]
         ELSE [kind |-> "timeout", k |-> i]
 Fault == Scn.fault
+\* the undecodable answer: fixed octets, or (cut > 0) the genuine answer without its last `cut` octets - an incomplete encoding whose
+\* beginning is right (a decoder that reads past the end of what was received, into whatever its buffer still holds, accepts it)
+Garbage(bytes) == IF "cut" \in DOMAIN Fault /\ Fault.cut > 0 /\ Len(bytes) > Fault.cut THEN SubSeq(bytes, 1, Len(bytes) - Fault.cut) ELSE Fault.bytes
 SendOne(i, bytes) ==
    IF ~Online THEN TRUE
    ELSE IF Fault.kind = "close" /\ i >= Fault.at
         THEN IOExec(<<PumpBin, "ctl", "-sock", Sock, "close", ToString(i)>>).exitValue = 0
         ELSE LET f == WorkDir \o "/dl" \o ToString(i) \o ".json"
-                 b == IF Fault.kind = "garbage" /\ i = Fault.at THEN Fault.bytes ELSE bytes
+                 b == IF Fault.kind = "garbage" /\ i = Fault.at THEN Garbage(bytes) ELSE bytes
              IN JsonSerialize(f, [bytes |-> b]) /\ IOExec(<<PumpBin, "ctl", "-sock", Sock, "send", ToString(i), f>>).exitValue = 0
 RECURSIVE SendAll(_, _)
 SendAll(i, outs) == IF Len(outs) = 0 THEN TRUE ELSE SendOne(i, Head(outs)) /\ SendAll(i + 1, Tail(outs))
@@ -73,6 +76,9 @@ Step ==
              noteStr == r.note IN
          /\ (IF Faulted THEN TRUE ELSE PrintAll(r.complaints, k, noteStr))
          /\ PrintAll(DlComplaints(r.out), k, "Model")
+         /\ (IF Fault.kind = "garbage" /\ Fault.at >= j /\ Fault.at < j + Len(r.out) /\ NgapDecode(Garbage(r.out[Fault.at - j + 1])).ok
+             THEN PrintT("REJECT line=" \o ToString(k) \o " id=" \o ToString(k) \o " ev=Final why=HARNESS: the garbage is a decodable NGAP PDU for the specification")
+             ELSE TRUE)
          /\ SendAll(j, r.out)
          /\ amf' = r.amf /\ j' = j + Len(r.out) /\ k' = k + 1
          /\ nbad' = nbad + Cardinality(r.complaints)
@@ -115,7 +121,7 @@ FinalNormal ==
    \cup {"session report " \o ToString(i) \o " is not the UE address / TEID / UPF address the network assigned: " \o ToString(EstReports[i])
            : i \in {x \in 1..Min2i(Len(EstReports), Len(Scn.ues)) : ~ReportOk(x)}}
 FinalFault ==
-   (IF Fault.kind = "garbage" /\ NgapDecode(Fault.bytes).ok THEN {"HARNESS: the garbage is a decodable NGAP PDU for the specification"} ELSE {})
+   (IF Fault.kind = "garbage" /\ ~("cut" \in DOMAIN Fault /\ Fault.cut > 0) /\ NgapDecode(Fault.bytes).ok THEN {"HARNESS: the garbage is a decodable NGAP PDU for the specification"} ELSE {})
    \cup (IF j > Fault.at THEN {} ELSE {"HARNESS: the run ended before the fault point was reached"})
    \cup (IF result.kind = "exit" THEN {} ELSE {"the emulator hangs after the fault (no exit within the deadline)"})
    \cup (IF result.kind = "exit" /\ result.code = 0 THEN {"exit status 0 after the fault"} ELSE {})
